@@ -428,7 +428,7 @@ PROPERTIES = {
                  "on a never-fed channel, pending, finite, spawn_local sleeper), forwarding with a hop budget, messages held in module state, shutdown / "
                  "shutdown-and-restart / panic at the k-th message, messages sent from at_sim_end, processing element, channel probe, in a fifth of the models a closed ring of 3..6 transit gates (never used for traffic) with a channel that carries a probe, in a quarter 1..3 extra nodes built from AsyncFn::new / failable / io (task blocked on its receiver), HandlerFn and ModuleFn; identity tokens in all of "
                  "these. Stop points: builder dropped, runtime dropped before run, stepped n events and abandoned, stepped and finished, event limit (EVERY "
-                 "prefix 0..24 for a share of the small models), time limit, completion, error exit. Oracle: after dropping whatever was returned every token "
+                 "prefix 0..24 for a share of the small models), time limit, completion, error exit; every 50 models a chain src -> relay ==slow queueing channel==> relay -> dst whose relays try to send onto their transit gates at start-up (rejected, run() returns an error) and which is stopped by a time limit with messages on the wire and in the channel queue. Oracle: after dropping whatever was returned every token "
                  "was dropped exactly once (none alive, none twice), the statics are clean, and a fixed follow-up simulation reproduces the trace it has in a "
                  "fresh process (messages handled and the wake-ups of a task that sleeps across message arrivals) and is itself leak free. Non-trivial = case with >= 5 tokens that checked clean; distinct = hash of the case."),
         "exhaustive_part": "every event-count limit 0..24 plus completion for one in eight small models",
@@ -445,8 +445,9 @@ PROPERTIES = {
             "quick": {"tokens_created": 500000, "stops_event_limit": 20000, "stops_time_limit": 1000, "stops_completed": 2000, "stops_error_exit": 2000,
                       "stops_builder_dropped": 500, "stops_runtime_dropped_before_run": 500, "stops_stepped_and_abandoned": 500, "models_with_closed_gate_ring": 5000,
                       "remaining_events_returned": 100000, "models_with_channel_backlog": 5000, "models_with_shutdown": 8000,
-                      "models_sending_at_teardown": 8000, "models_with_every_limit_prefix": 800},
-            "thorough": {"tokens_created": 10000000, "stops_event_limit": 400000, "remaining_events_returned": 2000000, "models_with_channel_backlog": 100000,
+                      "models_sending_at_teardown": 8000, "models_with_every_limit_prefix": 800,
+                      "runs_ended_with_errors_by_rejected_sends_on_transit_gates": 500},
+            "thorough": {"runs_ended_with_errors_by_rejected_sends_on_transit_gates": 10000, "tokens_created": 10000000, "stops_event_limit": 400000, "remaining_events_returned": 2000000, "models_with_channel_backlog": 100000,
                          "asan_tokens_created": 100000, "miri_tokens_created": 100},
         },
     },
